@@ -128,7 +128,9 @@ def tlc(module, cfg, workers=16, simulate=None, depth=None, tlc_seed=None, timeo
     wd = workdir(tag or ("tlc-" + os.path.basename(module)))
     module_path = module if os.path.isabs(module) else os.path.join(SPEC, module + ".tla")
     cfg_path = os.path.join(SPEC, cfg) if not os.path.isabs(cfg) else cfg
-    java = ["java", "-XX:+UseParallelGC", "-Xmx24g", "-DTLA-Library=" + SPEC]
+    # (TLC makes a directory "tlc-<number>" in java.io.tmpdir for every run and leaves it there: keep it inside the
+    # work directory of the run, which is removed afterwards)
+    java = ["java", "-XX:+UseParallelGC", "-Xmx24g", "-DTLA-Library=" + SPEC, "-Djava.io.tmpdir=" + wd]
     if dfs:
         java.append("-Dtlc2.tool.queue.IStateQueue=StateDeque")
     cmd = java + ["-cp", TLA_CP, "tlc2.TLC", "-workers", str(workers), "-metadir", os.path.join(wd, "meta"),
